@@ -9,11 +9,12 @@ import (
 )
 
 type opDef struct {
-	name  string
-	tag   string // property whose statement entails this op's own postcondition
-	gen   func(w *World, r *Rng) (Step, bool)
-	valid func(w *World, st *Step) bool
-	exec  func(w *World, st *Step)
+	selfSched bool // the op drives the scheduler itself (several simulated executions per step)
+	name      string
+	tag       string // property whose statement entails this op's own postcondition
+	gen       func(w *World, r *Rng) (Step, bool)
+	valid     func(w *World, st *Step) bool
+	exec      func(w *World, st *Step)
 }
 
 var opTable = map[string]*opDef{}
@@ -240,7 +241,7 @@ func init() {
 		}})
 	reg(&opDef{name: "setcow", tag: "C02",
 		gen: func(w *World, r *Rng) (Step, bool) {
-			return Step{S: []int{w.slot(r)}, A: []uint64{uint64(r.Intn(4) / 3 ^ 1)}}, true // mostly on
+			return Step{S: []int{w.slot(r)}, A: []uint64{uint64(r.Intn(4)/3 ^ 1)}}, true // mostly on
 		},
 		valid: func(w *World, st *Step) bool {
 			return slotsOK(w, st, 1, 1) && !w.B[st.S[0]].ZeroCopy
